@@ -26,7 +26,7 @@ BUDGET = {"quick": 12000, "thorough": 400000}
 
 @st.composite
 def _cases(draw):
-    prof = dict(gen.PROFILES["i18n"], p_group_media=0.15, p_search=0.08, p_or_other=0.1, p_table_list=0.05, settings="some", p_group=0.2, p_repeat=0.15,
+    prof = dict(gen.PROFILES["i18n"], p_group_media=0.15, p_search=0.15, p_search_randomize=1, p_randomize=0.2, p_or_other=0.1, p_table_list=0.05, settings="some", p_group=0.2, p_repeat=0.15,
                 p_text_ref=0.15, p_plain_too=0.3, p_arg_default_language=0.3, p_choice_label_ref=0.1, p_extra_cols=0.2, p_prefixed_names=0.1, p_osm=0.05)
     g = gen.G(draw, prof)
     form = gen.build_form(draw, prof, g=g)
@@ -241,7 +241,46 @@ def check(out, form, v):
                     expected_langs |= set(lm)
         inst = sec.get(lst["name"])
         if lst["name"] in used_by_search:
-            continue  # inline items: order/labels checked by C09; ids by C07
+            # in-line items (the search() appearance): what each language's user is shown is decided the same way, per select
+            for n in root.walk():
+                if not (n.kind == "q" and n.src is not None and "search(" in (n.cells.get("appearance") or "") and tt.parse_type(n.type)[1] == lst["name"]):
+                    continue
+                ctrl = [e for e in v.body.iter() if isinstance(e.tag, str) and e.get("ref") == n.path and xform.local(e) in ("select", "select1")]
+                if len(ctrl) != 1:
+                    continue
+                items = [e for e in xform.elems(ctrl[0]) if xform.local(e) == "item"]
+                if len(items) != len(model_rows):
+                    continue  # C09's business
+                for idx, (it, (lab, plain, media, suff)) in enumerate(zip(items, model_rows)):
+                    out.checked("C08.choice")
+                    lel = next((e for e in xform.elems(it) if xform.local(e) == "label"), None)
+                    ref_ = lel.get("ref") if lel is not None else None
+                    if req:
+                        mm = re.fullmatch(r"jr:itext\('(.*)'\)", ref_ or "")
+                        if not mm:
+                            out.fail("C08.choice", "search-item:not-itext", f"{n.path} item {idx}: the list is translated but the item's label is {ref_!r} / {(lel.text if lel is not None else None)!r}")
+                            continue
+                        tid = mm.group(1)
+                        for lang in actual_langs:
+                            want = lab.get(lang, "-") if (lab or not media) else None
+                            got = tvalue(lang, tid, None)
+                            if want is None:
+                                continue
+                            if got is None or not same_text(want, got):
+                                out.fail("C08.choice", "search-item:label:" + ("hole" if lang not in lab else "value"), f"{n.path} item {idx} [{lang}]: expected {want!r}, shown {got!r}")
+                                break
+                        for mt, lm in media.items():
+                            for lang in actual_langs:
+                                want = itext.MEDIA_PREFIX[mt] + lm[lang] if lang in lm else None
+                                got = tvalue(lang, tid, mt)
+                                if want != got:
+                                    out.fail("C08.choice", f"search-item:media:{mt}", f"{n.path} item {idx} {mt} [{lang}]: expected {want!r}, got {got!r}")
+                                    break
+                    else:
+                        got = inline_text(lel) if lel is not None else None
+                        if (plain or None) != (got or None) and not (plain and got is not None and same_text(plain, got)):
+                            out.fail("C08.choice", "search-item:inline-label", f"{n.path} item {idx}: expected label {plain!r}, got {got!r}")
+            continue
         if inst is None:
             continue  # C09's business
         items = [e for e in inst.iter(q(XF, "item"))]
